@@ -276,7 +276,9 @@ def save_model(
                 *model._symbols(model.constants),
                 *model._symbols(model.parameters),
             ]
-            symbol_to_index = {x: i for i, x in enumerate(all_symbols)}
+            # Keyed by name: MX symbols cannot be used as dictionary keys, looking
+            # up an array symbol would need the truth value of an array comparison.
+            symbol_to_index = {x.name(): i for i, x in enumerate(all_symbols)}
 
             expressions, durations = zip(*model.delay_arguments)
 
@@ -285,7 +287,11 @@ def save_model(
                 if not isinstance(dur, ca.MX):
                     dur = ca.MX(dur)  # Probably a constant, will have no dependencies
                 duration_dependencies.append(
-                    [symbol_to_index[var] for var in ca.symvar(dur) if ca.depends_on(dur, var)]
+                    [
+                        symbol_to_index[var.name()]
+                        for var in ca.symvar(dur)
+                        if ca.depends_on(dur, var)
+                    ]
                 )
             db["__delay_duration_dependent"] = duration_dependencies
 
@@ -404,7 +410,8 @@ def load_model(model_folder: str, model_name: str, compiler_options: Dict[str, s
                 (
                     x
                     for x in model.variable_metadata_function(
-                        ca.veccat(*[np.nan for v in model.parameters])
+                        # One entry per parameter element (parameters can be arrays)
+                        ca.repmat(np.nan, *parameter_vector.size())
                     )
                 ),
             )
@@ -495,13 +502,15 @@ def load_model(model_folder: str, model_name: str, compiler_options: Dict[str, s
                     dur = delay_durations_simplified[i]
 
                     if len(duration_dependencies[i]) < len(actual_deps):
-                        deps = set(ca.symvar(dur))
-                        actual_deps = {all_symbols[j] for j in duration_dependencies[i]}
-                        false_deps = deps - actual_deps
+                        # Compare by name, array symbols cannot be compared with ==
+                        true_deps = {all_symbols[j].name() for j in duration_dependencies[i]}
+                        false_deps = [x for x in ca.symvar(dur) if x.name() not in true_deps]
 
                         if false_deps:
                             [dur] = ca.substitute(
-                                [dur], list(false_deps), [np.nan] * len(false_deps)
+                                [dur],
+                                false_deps,
+                                [ca.repmat(np.nan, *x.size()) for x in false_deps],
                             )
                     else:
                         # Already removed all false dependencies
